@@ -360,6 +360,7 @@ struct PoolOpts {
   int max_restarts = 6;     // per shard
   bool hang_is_violation = false;  // otherwise a hang marks the run non-exhaustive
   bool crash_is_violation = true;  // false: abnormal exits are only counted (auxiliary builds)
+  std::function<std::string(const std::string& what)> crash_key;  // optional: classification key of a crash from the case descriptor (see Result::violation)
   bool resume = false;      // the shard function enumerates strictly increasing case ids and honours ShardCtl::resume_from
   std::string prop = "";
 };
@@ -474,7 +475,8 @@ inline void run_shards(int nshards, const PoolOpts& opts, const std::string& wor
         total->exhaustive = false;
         total->note("shard " + std::to_string(L.shard) + " made no progress for " + std::to_string(static_cast<int>(opts.hang_s)) + "s at case [" + what + "]; killed (not counted as violation)");
       } else {
-        total->violation(sig, (hung ? "no progress (hang) while executing: " : "worker died while executing: ") + what + "\n" + log.substr(0, 1500), ra);
+        total->violation(sig, (hung ? "no progress (hang) while executing: " : "worker died while executing: ") + what + "\n" + log.substr(0, 1500), ra,
+                         opts.crash_key ? sig + " | " + opts.crash_key(what) : std::string());
       }
       if (cid >= 0 && restarts[L.shard] < opts.max_restarts) {
         restarts[L.shard]++;
